@@ -49,3 +49,15 @@ NOT_DECIDED = ('that offsets never reach before the start of the output (follows
 MUTATIONS = ('see /verif/mutants/C12/*/meta.json (57 brainstormed mutants: 40 breaking - all reported, 17 behaviour-preserving - all silent); round 6 added x6-* (14 breaking edits of the '
              'copy / store / stop mechanism of the decoder) and P6-* (10 rewrites: inverted token dispatch, byte loop, blocks + tail, guarded wild copy, pointer + memmove, helper, early continue, renamed locals, '
              'defensive bounds test, literal through pointer arithmetic)')
+
+# eighth strengthening round (session K3, seed C12l): the token step may stage bytes in a scratch object of its own
+TECHNIQUE += ('; scratch objects of the token step (a local whose address is taken, a local array) are regions of their own: a copy into one records where its bytes came from, '
+              'a copy out of one is a copy from there with memmove semantics; sizeof is folded to its LP64 value in the AST for both engines')
+DECIDES += (' C12-EXTENT (round 8): copies that go through a machine word or a small local buffer (`memcpy(&word, dst + ref, 8); memcpy(dst + out, &word, 8);`, also inside a helper '
+            'or a block loop) are decided like direct copies - the stored extent against the room left, coverage, displacement; new clause read-extent: every load from the output '
+            '(direct, through a cast pointer, or into a scratch object, whose size need not be the size stored later) ends at or below dst_len for the smallest room the path admits, '
+            'refuted only by a concrete token. A condition that compares a position involving the offset fields with dst_len is weakened to the extreme values of its bound instead '
+            'of ending in ANALYSIS-ERROR. C12-BITS leaves copy sizes it has no value for (a product with sizeof, a copy through a scratch object) to C12-EXTENT.')
+MUTATIONS = ('see /verif/mutants/C12/*/meta.json; round 8 added y8-* (8 breaking edits of the staged "copy one machine word" mechanism: missing / exact / too small slack, 16 byte buffer, '
+             'load overrun with exact store, two byte literal, unguarded helper, block loop, guard on the wrong position) and P8-* (4 rewrites: guarded word copy, exact staged copy, '
+             'sizeof spelling + staged literal, guarded helper)')
